@@ -101,9 +101,17 @@ def _generate(rng, index, tier, extra):  # pylint: disable=unused-argument
                 'sender_discards': discards}
     if roll < 0.30:
         hs = [workload.handshake_message(rng, discards) for _ in range(rng.choice((1, 1, 2, 3, 4)))]
+        twins = rng.random() < 0.15
+        if twins:
+            hs = workload.handshake_twins(rng) + (hs[:1] if rng.random() < 0.3 else [])
         total = sum(len(m) for m in hs)
         mode = rng.random()
-        if mode < 0.2:
+        if mode < (0.6 if twins else 0.1) and max(len(m) for m in hs) <= 60000:
+            # one handshake message per record
+            frag_cuts = []
+            for message in hs[:-1]:
+                frag_cuts.append((frag_cuts[-1] if frag_cuts else 0) + len(message))
+        elif mode < 0.2:
             frag_cuts = []                                 # several messages coalesced in one record
         elif mode < 0.4 and total > 4:
             frag_cuts = sorted(rng.sample(range(1, total), min(total - 1, rng.randrange(3, 9))))  # message spans >=3 records
@@ -418,9 +426,10 @@ def check(tier, seed):
     began = time.time()
     me = __import__('simverif.props.c04', fromlist=['x'])
     extra = prepare(tier)
+    histories = core.history_batch(me, seed, tier, extra)      # first: this process has executed no run yet
     core.determinism_selftest(me, seed, tier, extra, count=30)
     n_runs, wall = BUDGET[tier]
-    batch = core.run_batch(me, seed, tier, n_runs, wall, extra)
+    batch = core.merge_batches([core.run_batch(me, seed, tier, n_runs, wall, extra), histories])
     coverage = core.coverage_from_batch(
         batch, RULE,
         fault_kinds=(),
